@@ -691,7 +691,8 @@ impl ObjectStore for GateStore {
         };
         self.gate
             .emit_call(self.actor, "delete", &c, out, -1, 1, json!([]), -1);
-        if d == Decision::Lost && res.is_ok() {
+        // a lost response only exists for a call that had an effect
+        if d == Decision::Lost && res.is_ok() && existed {
             return Err(injected(p, "lost response"));
         }
         res
@@ -1083,7 +1084,7 @@ impl CommitLease for GateLease {
         };
         self.gate
             .emit_call(self.actor, "unlock", &c, out, -1, 1, json!([]), success as i64);
-        if d == Decision::Lost {
+        if d == Decision::Lost && held {
             return Err(CommitError::OtherError(lance_io_err(
                 "injected fault (lost response, unlock)".into(),
             )));
